@@ -209,6 +209,17 @@ def gen_tree_ops(rng, tname, max_changes=3, max_files=3, p_set=0.5,
                             'rejected': True,
                             'attrs': dict(rng.choice(BAD_ADD_ATTRS))})
 
+            if diffs is None and 'diff' in fattrs and rng.chance(0.08):
+                # a diff whose bytes are text in its declared encoding, DOS
+                # or UNIX lines, line endings left to be detected
+                de = rng.choice(['utf-16-be', 'utf-32-be', 'utf-16-le',
+                                 'utf-16', 'cp037', 'utf-32'])
+                nl = rng.choice(['\r\n', '\n'])
+                fattrs['diff'] = {'$bytes': nl.join(
+                    ['--- a', '+++ b', '@@ -1 +1 @@', '-old', '+new']
+                    + ([''] if rng.chance(0.7) else [])).encode(de).hex()}
+                fattrs['diff_encoding'] = de
+
             ops.append({'op': 'add_file', 'tree': tname, 'change': ci,
                         'attrs': fattrs})
             sets([ci, fi], 'file', sorted(ATTRS['file']), p_set * 0.3)
